@@ -203,6 +203,52 @@ SubTilingOK(parent, off, t) ==
     /\ t.p2 = parent.p2 /\ t.lev = parent.lev
     /\ SubAxisOK(parent.x, off[1], t.x) /\ SubAxisOK(parent.y, off[2], t.y)
 
+\* ---------------------------------------------------------------- directory histories
+\* A pyramid directory as a reader sees it: dir[<<tx, ty>>] = the stored array of that deepest-level tile, indexed
+\* [file row, column]; a tile without a file reads as all-undefined.  An image is (id, U): pixel (x, y) has the
+\* value <<id, x, y>> unless <<x, y>> \in U (undefined: NaN / alpha 0).  tile_image fills a buffer per populated tile
+\* and hands it to write_image, which stores it - or, if every pixel of it is undefined, stores nothing and removes
+\* the file already there - so afterwards the position reads as exactly that buffer.  Tiles the tiling does not
+\* populate are left alone.
+Val(id, U, p) == IF p = Undef \/ p \in U THEN Undef ELSE <<id, p[1], p[2]>>
+TileIdx == (0..(TS - 1)) \X (0..(TS - 1))
+EmptyTile == [q \in TileIdx |-> Undef]
+EmptyDir(t) == [pos \in (0..(NTiles(t.p2) - 1)) \X (0..(NTiles(t.p2) - 1)) |-> EmptyTile]
+Buffer(par, r, id, U) == LET rows == RowIdx(par, r) IN [q \in TileIdx |-> Val(id, U, TilePixel(r, rows, q[1], q[2]))]
+AllUndef(buf) == \A q \in TileIdx : buf[q] = Undef
+TileInto(dir, t, par, id, U) ==
+    LET rs == Rects(t) writer == Writers(t, rs)
+    IN [pos \in DOMAIN dir |-> IF writer[pos[1], pos[2]] = 0 THEN dir[pos] ELSE Buffer(par, rs[writer[pos[1], pos[2]]], id, U)]
+\* the same without the removal of an earlier file when the new tile is all-undefined (kept so that TLC can show the
+\* removal is needed: DirShows fails for it as soon as a later image is undefined over a tile an earlier one populated)
+TileIntoKeepingStale(dir, t, par, id, U) ==
+    LET rs == Rects(t) writer == Writers(t, rs)
+    IN [pos \in DOMAIN dir |->
+          IF writer[pos[1], pos[2]] = 0 THEN dir[pos]
+          ELSE LET b == Buffer(par, rs[writer[pos[1], pos[2]]], id, U) IN IF AllUndef(b) THEN dir[pos] ELSE b]
+\* "reassembling the deepest-level tiles in display orientation reproduces the image, everything else undefined"
+DirShows(dir, t, par, id, U) ==
+    \A gx \in 0..(t.p2 - 1), gy \in 0..(t.p2 - 1) :
+       dir[<<gx \div TS, gy \div TS>>][<<FileRow(par, gy % TS), gx % TS>>] =
+          IF gx >= t.x.g0 /\ gx < t.x.g0 + t.x.len /\ gy >= t.y.g0 /\ gy < t.y.g0 + t.y.len
+          THEN Val(id, U, <<gx - t.x.g0, gy - t.y.g0>>) ELSE Undef
+\* undefined regions worth trying for a tiling: nothing, everything, the image part of each populated tile,
+\* the left half of the image, one pixel
+Regions(t) ==
+    LET rs == Rects(t) IN
+    {{}, (0..(t.x.len - 1)) \X (0..(t.y.len - 1)), (0..((t.x.len \div 2) - 1)) \X (0..(t.y.len - 1)), {<<0, 0>>}}
+    \cup {RectPixels(rs[k]) : k \in 1..Len(rs)}
+\* THEOREM: images of one layout tiled one after the other into ONE directory - after every tiling the directory shows
+\* the image tiled last, for either parity.  Stated inductively: whatever an earlier tiling of the same layout left
+\* behind (nothing; a fully populated pyramid; one with holes), tiling image 2 makes the directory show image 2.
+Before(t, par) ==
+    LET full == TileInto(EmptyDir(t), t, par, 1, {})
+    IN {EmptyDir(t), full, TileInto(full, t, par, 3, (0..((t.x.len \div 2) - 1)) \X (0..(t.y.len - 1)))}
+RetileOK(t) ==
+    \A par \in Parities : \A d \in Before(t, par) : \A U \in Regions(t) : DirShows(TileInto(d, t, par, 2, U), t, par, 2, U)
+RetileKeepingStaleOK(t) ==
+    \A par \in Parities : \A d \in Before(t, par) : \A U \in Regions(t) : DirShows(TileIntoKeepingStale(d, t, par, 2, U), t, par, 2, U)
+
 \* ================================================================ state machines (give TLC the bounded space)
 \* A behaviour picks a size ("pick", nothing computed yet), builds the tiling of the full image ("full",
 \* StudyTiling.__init__), derives any sub-image tiling of it ("sub", compute_for_subimage), returns to the
